@@ -1,16 +1,16 @@
-(* C15/Property.v — property C15 (Lighthouse angle, vector and pose conversions are mutually consistent).
+(* C15/Property.v — property C15 (Lighthouse angle, vector and pose conversions are mutually consistent):
+   the MODEL-LEVEL theorems.  This file does not depend on generated code (Gen_Formulas.v), so it is still checked
+   when the translator fails closed (harness: PROPERTY_FILES_NO_GEN).  The statements about the expression trees
+   translated from cflib's current source, and the tie tree = model function, are in C15/Property_code.v.
    Theorems only; each is closed by `exact <lemma>` and followed by Print Assumptions.
    Real-number statements (Coq.Reals): "to float32 accuracy" of the property text is NOT a theorem, it is
-   validated numerically by the harness on every run.  Definitions: C15/Model.v.  The `gen_*` trees are
-   regenerated from cflib's current source on every run (C15/Gen_Formulas.v); C15/GenTie.v ties them to the model. *)
+   validated numerically by the harness on every run.  Definitions: C15/Model.v (a Pose is an immutable value:
+   rotation matrix + translation; the harness's history oracle validates that the Python object behaves like one). *)
 From Coq Require Import Reals List.
 From CF Require Import C15.Model.
 From CF Require Import C15.Proofs_bs.
 From CF Require Import C15.Proofs_pose.
 From CF Require Import C15.Proofs_sum.
-From CF Require Import C15.Gen_Formulas.
-From CF Require Import C15.GenTie.
-From CF Require Import C15.Proofs_code.
 From CF Require Import C15.Examples.
 Import ListNotations.
 Open Scope R_scope.
@@ -34,24 +34,10 @@ Theorem C15_v2_v1_inverse : forall a1 a2,
 Proof. exact v2_v1_inverse. Qed.
 Print Assumptions C15_v2_v1_inverse.
 
-(* the same round trip stated directly on the expression trees translated from lighthouse_bs_vector.py *)
-Theorem C15_code_v1_v2_inverse : forall h v, in_fov h v ->
-  ev (ev [h; v] [gen_lh_v2_angle_1_0; gen_lh_v2_angle_2_0]) [gen_from_lh2_0; gen_from_lh2_1] = [h; v].
-Proof. exact code_v1_v2_inverse. Qed.
-Print Assumptions C15_code_v1_v2_inverse.
-
 (* ---- Cartesian direction and image-plane projection *)
 Theorem C15_cart_unit : forall h v, vnorm (cart h v) = 1.
 Proof. exact cart_unit. Qed.
 Print Assumptions C15_cart_unit.
-
-Theorem C15_code_cart_unit : forall h v,
-  match ev [h; v] [gen_cart_0; gen_cart_1; gen_cart_2] with
-  | [x; y; z] => sqrt (x ^ 2 + y ^ 2 + z ^ 2) = 1
-  | _ => False
-  end.
-Proof. exact code_cart_unit. Qed.
-Print Assumptions C15_code_cart_unit.
 
 Theorem C15_cart_projection_inverse : forall h v, in_fov h v ->
   from_projection (fst (projection h v)) (snd (projection h v)) = (h, v) /\
@@ -146,18 +132,6 @@ Theorem C15_projection_paths_zero_rotation : forall as_matrix : vec -> mat, (for
 Proof. exact projection_paths_zero_rotation. Qed.
 Print Assumptions C15_projection_paths_zero_rotation.
 
-(* stated on the trees translated from _calc_angle_pairs / Pose / from_cart *)
-Theorem C15_code_projection_paths_agree : forall bs_r bs_t cf_r cf_t s,
-  ev (vec_list bs_r ++ vec_list bs_t ++ vec_list cf_r ++ vec_list cf_t ++ vec_list s)
-     [gen_solver_calc_angle_pairs_0; gen_solver_calc_angle_pairs_1]
-  = ev (ev (mat_list (rodrigues bs_r) ++ vec_list bs_t ++
-            ev (mat_list (rodrigues cf_r) ++ vec_list cf_t ++ vec_list s)
-               [gen_pose_rotate_translate_0; gen_pose_rotate_translate_1; gen_pose_rotate_translate_2])
-           [gen_pose_inv_rotate_translate_0; gen_pose_inv_rotate_translate_1; gen_pose_inv_rotate_translate_2])
-       [gen_from_cart_0; gen_from_cart_1].
-Proof. exact code_projection_paths_agree. Qed.
-Print Assumptions C15_code_projection_paths_agree.
-
 (* ---- IPPE <-> CF axis permutation *)
 Theorem C15_ippe_permutation_inverse : forall v a t u,
   rotate_vector_to_cf (rotate_vector_to_ippe v) = v /\ rotate_vector_to_ippe (rotate_vector_to_cf v) = v /\
@@ -168,22 +142,3 @@ Theorem C15_ippe_permutation_inverse : forall v a t u,
   (let i := rotate_vector_to_ippe v in (vx i / vz i, vy i / vz i) = q_to_ippe (vy v / vx v) (vz v / vx v)).
 Proof. exact ippe_all. Qed.
 Print Assumptions C15_ippe_permutation_inverse.
-
-(* ---- every translated function denotes the model function used above *)
-Theorem C15_code_matches_model : code_matches_model.
-Proof. exact code_matches_model_holds. Qed.
-Print Assumptions C15_code_matches_model.
-
-(* ---- the trees the harness evaluates against scipy (validation of the hypothesis `as_matrix r = rodrigues r`)
-        are the Coq definitions rodrigues / quat_of_rotvec / quat_mat *)
-Theorem C15_scipy_hypothesis_transport :
-  (forall r, ev (vec_list r) [gen_spec_rodrigues_0; gen_spec_rodrigues_1; gen_spec_rodrigues_2; gen_spec_rodrigues_3;
-                              gen_spec_rodrigues_4; gen_spec_rodrigues_5; gen_spec_rodrigues_6; gen_spec_rodrigues_7;
-                              gen_spec_rodrigues_8] = mat_list (rodrigues r)) /\
-  (forall r, ev (vec_list r) [gen_spec_quat_of_rotvec_0; gen_spec_quat_of_rotvec_1; gen_spec_quat_of_rotvec_2;
-                              gen_spec_quat_of_rotvec_3] = quat_list (quat_of_rotvec r)) /\
-  (forall u, ev (quat_list u) [gen_spec_quat_mat_0; gen_spec_quat_mat_1; gen_spec_quat_mat_2; gen_spec_quat_mat_3;
-                               gen_spec_quat_mat_4; gen_spec_quat_mat_5; gen_spec_quat_mat_6; gen_spec_quat_mat_7;
-                               gen_spec_quat_mat_8] = mat_list (quat_mat u)).
-Proof. exact spec_transport. Qed.
-Print Assumptions C15_scipy_hypothesis_transport.
